@@ -33,6 +33,7 @@ OBLIGATIONS = [
     'C16.r2a_valid_implies_active', 'C16.r2a_valid_stable', 'C16.r2a_valid_stable_until', 'C16.r2a_valid_drops',
     'C16.r2a_payload', 'C16.lastLoad_eq_iff', 'C16.r2a_tkeep_full', 'C16.r2a_sent_after_accept',
     'C16.r2a_sent_implies_earlier_accept', 'C16.r2a_no_duplicate_beats', 'C16.r2a_oracle_accepts_model',
+    'C16.r2a_oracle_tolerant_accepts_model', 'C16.r2a_reset_clears',
     'C16.r2a_oracle_accepts_generated', 'C16.r2a_done_while_pending_counterexample',
     # kernel FSM (source of ap_done): done is raised only from the state reached after all_sent
     'C16.vitis_done_only_after_all_sent',
@@ -221,7 +222,48 @@ def gen_r2a(rng, blk, n, style):
         yield (start, reset, done, load, val, tready)
 
 
-STYLES = {'a2r': ['any', 'any', 'literal', 'nodone', 'storm'], 'r2a': ['quiet', 'quiet', 'quiet', 'literal', 'any', 'storm']}
+def gen_r2a_pending_done(rng, blk, n, style):
+    """scripted skeleton with random fill: k beats loaded and accepted; one more load left pending under back-pressure (or
+    coincident with the done pulse); ap_done (legal in the literal reading: sent is up) -> adapter inactive with VALID up;
+    idle cycles (the peer may or may not take the stale beat); ap_reset WHILE INACTIVE; idle; restart with READY up; more traffic"""
+    W = blk.W
+    z = lambda **kw: (kw.get('start', 0), kw.get('reset', 0), kw.get('done', 0), kw.get('load', 0), kw.get('reg', rng.bits(W)), kw.get('rdy', 0))
+    if rng.chance(1, 2):
+        yield z(reset=1)
+    yield z(start=1)
+    for _ in range(rng.randint(1, 2)):
+        yield z(load=1)
+        for _ in range(rng.randint(0, 3)):
+            yield z()
+        yield z(rdy=1)
+    way = rng.randint(0, 2)
+    if way == 0:            # load, back-pressure, done
+        yield z(load=1)
+        for _ in range(rng.randint(0, 2)):
+            yield z()
+        yield z(done=1)
+    elif way == 1:          # load coincides with done
+        yield z(load=1, done=1)
+    else:                   # load while the previous beat is being accepted is dropped; load again, then done
+        yield z(load=1)
+        yield z(load=1, rdy=1)
+        yield z(load=1)
+        yield z(done=1, rdy=rng.randint(0, 1))
+    for _ in range(rng.randint(0, 3)):
+        yield z(rdy=1 if rng.chance(1, 3) else 0, load=1 if rng.chance(1, 4) else 0)
+    if not rng.chance(1, 6):
+        yield z(reset=1, rdy=rng.randint(0, 1), load=rng.randint(0, 1))     # reset while inactive with VALID pending
+    for _ in range(rng.randint(0, 2)):
+        yield z(rdy=rng.randint(0, 1))
+    yield z(start=1, rdy=1)
+    for _ in range(rng.randint(1, 4)):
+        yield z(rdy=1)
+    for i in gen_r2a(rng, blk, max(0, n // 3), 'literal' if rng.chance(1, 2) else 'quiet'):
+        yield i
+
+
+STYLES = {'a2r': ['any', 'any', 'literal', 'nodone', 'storm'],
+          'r2a': ['quiet', 'quiet', 'literal', 'pending_done', 'quiet', 'literal', 'any', 'pending_done', 'storm']}
 
 
 # ------------------------------------------------------------------------------------------------ batch
@@ -263,13 +305,17 @@ class Batch:
         # the oracle always judges the whole history since power-up (its monitors start there)
         oc = ';'.join(','.join(str(x) for x in list(i) + o) for i, o in pre + list(zip(ins, obs)))
         ost = ','.join(str(x) for x in o_init)
+        tr = pre + list(zip(ins, obs))
         if kind == 'a2r':
             self.lines.append(f'oa2r|{W}|{ost}|{oc}')
+            j['py_verdicts'] = [py_oracle_a2r(W, o_init, tr)]
         else:
+            # mode 0: literal assumption, every clause (re-derives the known finding); mode 2: literal assumption, the
+            # state-independent clauses in EVERY state and the doneQuiet-dependent ones whenever no violation is outstanding
             self.lines.append(f'or2a|0,{cfg}|{ost}|{oc}')
-        tr = pre + list(zip(ins, obs))
-        j['py_verdict'] = (py_oracle_a2r(W, o_init, tr) if kind == 'a2r' else
-                           py_oracle_r2a(False, W, DW, DW // 8, o_init, tr))
+            self.lines.append(f'or2a|2,{cfg}|{ost}|{oc}')
+            j['py_verdicts'] = [py_oracle_r2a(0, W, DW, DW // 8, o_init, tr), py_oracle_r2a(2, W, DW, DW // 8, o_init, tr)]
+        j['nlines'] = len(self.lines) - j['at']
         self.jobs.append(j)
 
     def add_raw(self, lines, handler):
@@ -290,7 +336,7 @@ class Batch:
             if j.get('raw'):
                 j['handler'](None if out is None else out[j['at']:j['at'] + j['n']])
             else:
-                analyse(res, j, None if out is None else out[j['at']:j['at'] + 3])
+                analyse(res, j, None if out is None else out[j['at']:j['at'] + j['nlines']])
         self.lines, self.jobs = [], []
 
 
@@ -315,7 +361,8 @@ def py_oracle_a2r(W, o0, tr):
     return 'ok'
 
 
-def py_oracle_r2a(quiet, W, DW, KW, o0, tr):
+def py_oracle_r2a(mode, W, DW, KW, o0, tr):
+    """mode 0 literal / 1 quiet / 2 tolerant, as Spec.R2A.check"""
     keep = ((1 << ((W + 7) // 8)) - 1) % (1 << KW)
     data, sent_ok, loads, accepts, pend, o = 0, False, 0, 0, False, o0
     for t, (i, o2) in enumerate(tr):
@@ -326,26 +373,30 @@ def py_oracle_r2a(quiet, W, DW, KW, o0, tr):
         clear = reset == 1 or done == 1 or (start == 1 and active == 0)
         dq = done != 1 or (tvalid == 0 and not le)
         dl = done != 1 or sent == 1
-        if not (dq if quiet else dl):
+        if not (dq if mode == 1 else dl):
             return f'stop {t}'
+        judged = mode != 2 or not pend
+        pend_now = pend or not dq
         data = reg_in if le else data
         sent_ok = False if clear else (True if acc else sent_ok)
-        loads += 1 if le else 0
-        accepts += 1 if acc else 0
-        pend = pend or not dq
+        loads = 0 if reset == 1 else loads + (1 if le else 0)
+        accepts = 0 if reset == 1 else accepts + (1 if acc else 0)
+        pend = False if reset == 1 else pend_now
         act = 0 if (reset == 1 or done == 1) else (1 if start == 1 else active)
         cl = [('tlast_eq_tvalid', tlast == tvalid and o2[2] == o2[0]), ('tkeep_const', tkeep == keep and o2[3] == keep),
               ('active_rule', o2[5] == act),
               ('valid_stable', not (tvalid == 1 and reset != 1 and not acc) or o2[0] == 1),
-              ('valid_drops_when_accepted_or_reset', not (acc or reset == 1) or o2[0] == 0),
+              ('reset_clears_valid', not (reset == 1) or o2[0] == 0),
               ('valid_raised_only_by_load', not (tvalid == 0 and o2[0] == 1) or le),
               ('load_raises_valid', not (le and reset != 1 and not acc) or o2[0] == 1),
               ('tdata_is_latest_load', o2[1] == data % (1 << DW)),
-              ('sent_only_after_accept', not (o2[4] == 1) or sent_ok), ('sent_after_accept', (not sent_ok) or o2[4] == 1),
-              ('no_duplicate_beat', accepts + o2[0] <= loads)]
+              ('sent_only_after_accept', not (o2[4] == 1) or sent_ok)]
+        if judged:
+            cl += [('valid_drops_when_accepted', not acc or o2[0] == 0), ('sent_after_accept', (not sent_ok) or o2[4] == 1),
+                   ('no_duplicate_beat', accepts + o2[0] <= loads)]
         for n, ok in cl:
             if not ok:
-                return f'fail {t} {n} {1 if pend else 0}'
+                return f'fail {t} {n} {1 if pend_now else 0}'
         o = o2
     return 'ok'
 
@@ -373,7 +424,8 @@ def events(j):
                      ('load_ignored_inactive', i[3] == 1 and active == 0), ('load_while_pending', le and tvalid == 1 and not acc),
                      ('load_with_accept', le and acc), ('restart', i[0] == 1 and active == 0), ('reset', i[1] == 1),
                      ('reset_while_pending', i[1] == 1 and tvalid == 1), ('done', i[2] == 1),
-                     ('done_while_pending', i[2] == 1 and (tvalid == 1 or le)), ('done_without_sent', i[2] == 1 and sent == 0),
+                     ('done_while_pending', i[2] == 1 and (tvalid == 1 or le)), ('reset_while_inactive_pending', i[1] == 1 and tvalid == 1 and active == 0),
+                     ('restart_with_stale_valid', i[0] == 1 and active == 0 and tvalid == 1), ('accept_while_inactive', acc and active == 0), ('done_without_sent', i[2] == 1 and sent == 0),
                      ('ready_without_valid', i[5] == 1 and tvalid == 0), ('truncating_data', i[4] >= (1 << j['DW']))]
         for n, b in names:
             if b:
@@ -395,11 +447,11 @@ def analyse(res, j, out):
                   inputs='start,reset,done,tvalid,tdata' if kind == 'a2r' else 'start,reset,done,load_outs,reg_in,tready',
                   done_while_pending=bool(ev.get('done_while_pending')))
     if out is None:
-        out = [None, None, j['py_verdict']]   # Lean side unavailable: judge with the transcription of the oracle
+        out = [None, None] + j['py_verdicts']   # Lean side unavailable: judge with the transcription of the oracle
         res.hist(kind + '_oracle_source', 'python-fallback')
-    elif out[2] != j['py_verdict']:
+    elif list(out[2:]) != j['py_verdicts']:
         res.broken.append(('correspondence', 'oracle-transcription',
-                           dict(replay, lean=out[2], python=j['py_verdict'], what='Spec.*.check and its Python copy disagree')))
+                           dict(replay, lean=list(out[2:]), python=j['py_verdicts'], what='Spec.*.check and its Python copy disagree')))
     want = ';'.join(','.join(str(x) for x in r) for r in j['rows'])
     for tag, got in (('model', out[0]), ('generated', out[1])):
         if got is not None and got != want:
@@ -408,20 +460,22 @@ def analyse(res, j, out):
             names = (['active', 'loaded', 'q'] + A2R_WIRES) if kind == 'a2r' else (['active', 'tvalid', 'tdata', 'sent'] + R2A_WIRES)
             res.disagree(f'{kind}-{tag}', dict(replay, cycle=t, names=names, lean=g[t] if t < len(g) else None,
                                               python=w[t] if t < len(w) else None, cycles=replay['cycles'][:t + 1]))
-    v = out[2].split()
-    res.hist(kind + '_oracle', v[0])
-    if v[0] == 'fail' and int(v[1]) < j['npre']:
-        res.hist(kind + '_oracle', 'fail_inside_replayed_path')   # reported by the job that explored that transition
-    elif v[0] == 'fail':
-        t = int(v[1]) - j['npre']
-        pre = j['o0'] if t == 0 else j['obs'][t - 1]
-        res.fail(f"{replay['block']}: oracle clause {v[2]} fails at cycle {t}",
-                 dict(replay, cycles=replay['cycles'][:t + 1], cycle=t, clause=v[2], outputs_before=pre,
-                      inputs_at_cycle=list(j['ins'][t]), outputs_after=j['obs'][t],
-                      outputs='active,loaded,q,tready' if kind == 'a2r' else 'tvalid,tdata,tlast,tkeep,sent,active',
-                      done_while_pending=(v[3] == '1') if len(v) > 3 else replay['done_while_pending']))
-    elif v[0] not in ('ok', 'stop'):
-        res.broken.append(('correspondence', 'oracle', f'unexpected verdict {out[2]!r}'))
+    for k, verdict in enumerate(out[2:]):
+        mode = 'literal' if k == 0 else 'tolerant'
+        v = verdict.split()
+        res.hist(kind + '_oracle' + ('' if k == 0 else '_tolerant'), v[0])
+        if v[0] == 'fail' and int(v[1]) < j['npre']:
+            res.hist(kind + '_oracle', 'fail_inside_replayed_path')   # reported by the job that explored that transition
+        elif v[0] == 'fail':
+            t = int(v[1]) - j['npre']
+            pre = j['o0'] if t == 0 else j['obs'][t - 1]
+            res.fail(f"{replay['block']}: oracle clause {v[2]} fails at cycle {t}" + (' (tolerant mode)' if k else ''),
+                     dict(replay, cycles=replay['cycles'][:t + 1], cycle=t, clause=v[2], oracle_mode=mode, outputs_before=pre,
+                          inputs_at_cycle=list(j['ins'][t]), outputs_after=j['obs'][t],
+                          outputs='active,loaded,q,tready' if kind == 'a2r' else 'tvalid,tdata,tlast,tkeep,sent,active',
+                          done_while_pending=(v[3] == '1') if len(v) > 3 else replay['done_while_pending']))
+        elif v[0] not in ('ok', 'stop'):
+            res.broken.append(('correspondence', 'oracle', f'unexpected verdict {verdict!r}'))
 
 
 # ------------------------------------------------------------------------------------------------ streams
@@ -449,16 +503,30 @@ def exhaustive_stream(res, b, kind, W, DW, data_vals, max_states=64):
         inputs = [(s, r, d, l, x, y) for s in (0, 1) for r in (0, 1) for d in (0, 1) for l in (0, 1) for x in data_vals for y in (0, 1)]
     blk = make(kind, W, DW)
     seen = {tuple(blk.state()): ()}
-    todo = [()]
+    state_of = {(): tuple(blk.state())}
+    todo, deferred = [()], []
     n = 0
-    while todo:
+    flag = 1 if kind == 'a2r' else 3      # index of loaded / sent in the state tuple
+    while todo or deferred:
+        if not todo:                      # states only reachable by violating the literal assumption on done
+            path, st = deferred.pop(0)
+            if st in seen or len(seen) >= max_states:
+                continue
+            seen[st], state_of[path] = path, st
+            todo.append(path)
+            continue
         path = todo.pop(0)
         for i in inputs:
             ins, rows, obs = b.run_real(kind, W, DW, [i], f'exhaustive:{kind}:W{W}', init_path=path)
             n += 1
             st = tuple(rows[0][:3 if kind == 'a2r' else 4])
             if st not in seen and len(seen) < max_states:
-                seen[st] = path + (i,)
+                # prefer paths on which done is only pulsed with the loaded / sent flag up: the oracle judges the whole history
+                # since power-up and stops where the property's assumption is violated
+                if i[2] == 1 and state_of[path][flag] != 1:
+                    deferred.append((path + (i,), st))
+                    continue
+                seen[st], state_of[path + (i,)] = path + (i,), st
                 todo.append(path + (i,))
     res.hist('exhaustive_states', f'{kind}_W{W}_DW{DW}', len(seen))
     res.hist('exhaustive_transitions', f'{kind}_W{W}_DW{DW}', n)
@@ -472,7 +540,7 @@ def random_stream(res, b, rng, kind, n_sched, max_len, widths):
         W = max(1, W)
         style = STYLES[kind][k % len(STYLES[kind])]
         n = r.randint(4, max_len)
-        gen = gen_a2r if kind == 'a2r' else gen_r2a
+        gen = gen_a2r if kind == 'a2r' else (gen_r2a_pending_done if style == 'pending_done' else gen_r2a)
         ins, rows, obs = b.run_real(kind, W, DW, lambda blk: gen(r, blk, n, style), f'random-{style}:{k}')
         if k < 2:
             res.sample(dict(block=kind, W=W, DW=DW, style=style, cycles=[list(i) for i in ins[:12]],
@@ -613,7 +681,7 @@ def main(res, tier, rng, replay):
                         'model state = register output wires (Reg.value masked by its q wire); exact because the hold branch re-prepares the same value',
                         'inputs are poked between clk(1) calls; outputs are observed after each clk(1) (Moore outputs)',
                         'Reg2Axi theorems assume doneQuiet (no ap_done while a beat is pending or being loaded); under the literal reading '
-                        '(done only while sent=1) the real block violates valid_drops_when_accepted_or_reset: known finding C16-r2a-done-while-pending',
+                        '(done only while sent=1) the real block violates valid_drops_when_accepted: known finding C16-r2a-done-while-pending',
                         'math.ceil(W/8) is modelled as (W+7)/8 (exact for W < 2^53); compared with the constructor for a sweep of W']
 
 
